@@ -323,6 +323,13 @@ fn blame(last: &Cmd) -> Option<&'static str> {
 }
 
 /// Executes one command on the connection and checks it: C11 parser, then M-KV.
+thread_local! {
+    /// when set, every command is fed together with a trailing noop in one buffer: the decoder meets the
+    /// command with its follower already buffered (what a pipelining client produces)
+    pub static PIGGYBACK: std::cell::Cell<bool> = const { std::cell::Cell::new(false) };
+}
+const PIGGY_OPAQUE: u32 = 0x7711_7711;
+
 pub fn exec(
     conn: &mut Conn,
     m: &mut Model,
@@ -337,7 +344,11 @@ pub fn exec(
         _ => 0,
     };
     let frame = cmd.frame(keys, cas, opaque);
-    let bytes = frame.encode();
+    let mut bytes = frame.encode();
+    let piggy = PIGGYBACK.with(|p| p.get()) && !matches!(cmd, Cmd::Stat);
+    if piggy {
+        bytes.extend(wire::simple(op::NOOP, PIGGY_OPAQUE).encode());
+    }
     let out = match catch_unwind(AssertUnwindSafe(|| conn.feed(&bytes))) {
         Ok(o) => o,
         Err(e) => {
@@ -364,14 +375,37 @@ pub fn exec(
         });
         return Err(Viol::new(&tags, "valid-frame-rejected", format!("well-formed {} rejected by the decoder: {}", cmd.brief(), e)));
     }
-    if out.handled.len() != 1 || conn.buf.len() != 0 {
+    let want_frames = if piggy { 2 } else { 1 };
+    if out.handled.len() != want_frames || conn.buf.len() != 0 {
+        let mut tags = vec!["C09"];
+        if piggy {
+            // a command that swallows (or loses) the request buffered behind it
+            tags.push("C12");
+            tags.push(match cmd {
+                Cmd::Concat { .. } => "C06",
+                Cmd::Store { op: o, .. } if *o != op::SET => "C06",
+                Cmd::Counter { .. } => "C07",
+                Cmd::Delete { .. } | Cmd::Flush { .. } => "C08",
+                _ => "C01",
+            });
+        }
         return Err(Viol::new(
-            &["C09"],
+            &tags,
             "frame-count",
-            format!("one frame of {} bytes produced {} requests, {} bytes left", bytes.len(), out.handled.len(), conn.buf.len()),
+            format!("{} frame(s) of {} bytes ({}{}) produced {} requests, {} bytes left", want_frames, bytes.len(), cmd.brief(), if piggy { " + noop in the same buffer" } else { "" }, out.handled.len(), conn.buf.len()),
         ));
     }
-    let resps = wire::parse_all(&out.bytes).map_err(|e| Viol::new(&["C11"], "resp-grammar", format!("{}: {}", cmd.brief(), e)))?;
+    let mut resps = wire::parse_all(&out.bytes).map_err(|e| Viol::new(&["C11"], "resp-grammar", format!("{}: {}", cmd.brief(), e)))?;
+    if piggy {
+        match resps.last() {
+            Some(r) if r.opaque == PIGGY_OPAQUE && r.opcode == op::NOOP && r.status == st::OK => {
+                resps.pop();
+            }
+            other => {
+                return Err(Viol::new(&["C12", "C11"], "follower-unanswered", format!("the noop buffered behind {} was not answered last (last response: {:?})", cmd.brief(), other.map(|r| r.brief()))));
+            }
+        }
+    }
     let is_stat = matches!(cmd, Cmd::Stat);
     if resps.len() > 1 && !is_stat {
         return Err(Viol::new(&["C12", "C11"], "multi-response", format!("{} produced {} responses", cmd.brief(), resps.len())));
@@ -515,6 +549,10 @@ pub fn run_case(ctx: &Ctx, prof: &Profile, case: u64, verbose: bool) -> CaseOut 
     // after a clock advance: a command aimed at an item that has expired since and that nobody has touched
     // (the sweep is skipped once), with every CAS argument: the states "expired, collected" and "expired, still
     // in the map" must be indistinguishable for get/add/replace/append/prepend/incr/decr
+    PIGGYBACK.with(|p| p.set(!cfg!(miri) && rng.gen_ratio(1, 4)));
+    if PIGGYBACK.with(|p| p.get()) {
+        out.counters.insert("cases_with_a_request_buffered_behind_every_command".into(), 1);
+    }
     let mut probe_uncollected = false;
     for step in 0..len {
         let mut cmd = gen_cmd(&mut rng, prof, &m, &keys, limit);
@@ -595,6 +633,7 @@ pub fn run_case(ctx: &Ctx, prof: &Profile, case: u64, verbose: bool) -> CaseOut 
             }
         }
     }
+    PIGGYBACK.with(|p| p.set(false));
     out.comparisons = m.comparisons;
     out.fingerprint = fnv(&fp);
     let need_states = matches!(ctx.prop.as_str(), "C06" | "C07");
